@@ -101,3 +101,23 @@ pub fn search_model<'a, T: QueryServerTransaction<'a>>(txn: &mut T) -> Vec<Arc<E
         .filter(|e| (MODEL_BASE..MODEL_BASE + 100_000).contains(&e.get_uuid().as_u128()))
         .collect()
 }
+
+/// The internal (system) identity, as the server's own maintenance tasks use it.
+pub fn internal_identity() -> Identity {
+    Identity::from_internal()
+}
+
+/// Revive a recycled entry by uuid through the public revive_recycled path with the internal identity.
+pub fn revive_uuid(wr: &mut QueryServerWriteTransaction<'_>, u: Uuid) -> Result<(), OperationError> {
+    let f = filter_all!(f_eq(Attribute::Uuid, PartialValue::Uuid(u)));
+    let re = crate::event::ReviveRecycledEvent::from_parts(Identity::from_internal(), &f, wr)?;
+    wr.revive_recycled(&re)
+}
+
+pub fn cred_uuid(c: &crate::credential::Credential) -> Uuid {
+    c.uuid
+}
+/// true for names produced by name_of for model uuids ("e<digits>")
+pub fn is_model_name(s: &str) -> bool {
+    s.len() > 1 && s.len() < 8 && s.starts_with('e') && s[1..].chars().all(|c| c.is_ascii_digit())
+}
